@@ -1,6 +1,6 @@
 (* Proofs for the SDP model: text primitives, decimal round trip, the line
    parsers on the templates Pack writes, and Pack -> ParseSdp2LogicContext. *)
-From Coq Require Import Lia ZifyN ZifyNat ZifyBool.
+From Coq Require Import Lia ZifyN ZifyNat ZifyBool Strings.String.
 From Lal Require Import Common.LBytes Common.Res Codec.CodecSdpText Codec.CodecSdp.
 Ltac Zify.zify_post_hook ::= Z.div_mod_to_equations.
 Open Scope N_scope.
@@ -215,3 +215,248 @@ Proof.
   pose proof (fmt_d_chars z Hz) as Hc. rewrite Forall_forall in Hc. specialize (Hc x Hx).
   apply negb_true_iff, N.eqb_neq. lia.
 Qed.
+
+(* ------------------------------------------------------------------ *)
+(* helpers for texts made of literal and symbolic segments             *)
+Lemma drop_while_hd f x s : f x = false -> drop_while f (x :: s) = x :: s.
+Proof. intro H. cbn [drop_while]. now rewrite H. Qed.
+
+Lemma drop_while_app_hd f a r :
+  match a with x :: _ => f x = false | [] => False end -> drop_while f (a ++ r) = a ++ r.
+Proof. destruct a as [|x a]; [tauto|]. intro H. cbn [app]. now apply drop_while_hd. Qed.
+
+Lemma drop_while_skip f x s : f x = true -> drop_while f (x :: s) = drop_while f s.
+Proof. intro H. cbn [drop_while]. now rewrite H. Qed.
+
+(* "trimming on the right changes nothing", closed under prefixing *)
+Definition ends_ok (f : N -> bool) (s : bytes) : Prop := trim_right_f f s = s /\ s <> [].
+
+Lemma ends_ok_cons f x s : ends_ok f s -> ends_ok f (x :: s).
+Proof.
+  intros [H Hne]. split; [|discriminate]. cbn [trim_right_f]. rewrite H.
+  destruct s; [congruence|reflexivity].
+Qed.
+
+Lemma ends_ok_app f a s : ends_ok f s -> ends_ok f (a ++ s).
+Proof. intro H. induction a as [|x a IH]; [exact H|]. cbn [app]. now apply ends_ok_cons. Qed.
+
+Lemma ends_ok_tail f x b : f x = false -> forallb (fun y => negb (f y)) b = true -> ends_ok f (x :: b).
+Proof.
+  intros Hx Hb. split; [|discriminate].
+  apply (trim_right_f_app f [] x b Hx Hb).
+Qed.
+
+(* ---- the line parsers on "a=rtpmap:<pt> <name>/<rate>[/<params>]" ---- *)
+Lemma parse_a_rtpmap_3 ptxt pt name ratetxt rate params :
+  nob 32 ptxt = true -> atoi ptxt = (pt, 0) -> nob 47 name = true ->
+  nob 47 ratetxt = true -> atoi ratetxt = (rate, 0) ->
+  parse_a_rtpmap (k_rtpmap ++ 58 :: (ptxt ++ 32 :: (name ++ 47 :: (ratetxt ++ 47 :: params))))
+  = Ok {| rm_pt := pt; rm_name := name; rm_rate := rate; rm_params := params |}.
+Proof.
+  intros H1 H2 H3 H4 H5. unfold parse_a_rtpmap.
+  rewrite break1_app by reflexivity. rewrite (break1_app 32 _ _ H1). rewrite H2. cbn [N.eqb negb].
+  rewrite (break1_app 47 _ _ H3). rewrite (break1_app 47 _ _ H4). rewrite H5. reflexivity.
+Qed.
+
+Lemma parse_a_rtpmap_2 ptxt pt name ratetxt rate :
+  nob 32 ptxt = true -> atoi ptxt = (pt, 0) -> nob 47 name = true ->
+  nob 47 ratetxt = true -> atoi ratetxt = (rate, 0) ->
+  parse_a_rtpmap (k_rtpmap ++ 58 :: (ptxt ++ 32 :: (name ++ 47 :: ratetxt)))
+  = Ok {| rm_pt := pt; rm_name := name; rm_rate := rate; rm_params := [] |}.
+Proof.
+  intros H1 H2 H3 H4 H5. unfold parse_a_rtpmap.
+  rewrite break1_app by reflexivity. rewrite (break1_app 32 _ _ H1). rewrite H2. cbn [N.eqb negb].
+  rewrite (break1_app 47 _ _ H3). rewrite (break1_none 47 _ H4). rewrite H5. reflexivity.
+Qed.
+
+(* ---- "a=fmtp:<format> <body>" ---- *)
+Lemma parse_a_fmtp_shape ptxt pt body :
+  nob 32 ptxt = true -> atoi ptxt = (pt, 0) ->
+  parse_a_fmtp (k_fmtp ++ 58 :: (ptxt ++ 32 :: body))
+  = let* m := fmtp_params (split1 59 (trim_right_c 59 (trim_left_c 59 body))) [] in
+    Ok {| fp_format := pt; fp_params := m |}.
+Proof.
+  intros H1 H2. unfold parse_a_fmtp.
+  rewrite break1_app by reflexivity. rewrite (break1_app 32 _ _ H1). rewrite H2. reflexivity.
+Qed.
+
+Lemma fmtp_params_cons piece k v rest m :
+  trim_space piece = k ++ 61 :: v -> nob 61 k = true ->
+  fmtp_params (piece :: rest) m = fmtp_params rest (map_set k v m).
+Proof. intros H1 H2. cbn [fmtp_params]. rewrite H1, (break1_app 61 _ _ H2). reflexivity. Qed.
+
+(* ------------------------------------------------------------------ *)
+(* literal pieces of the templates *)
+Definition q_pm : bytes := Eval compute in s2b "packetization-mode=1"%string.
+Definition q_pm_k : bytes := Eval compute in s2b "packetization-mode"%string.
+Definition q_sprop : bytes := Eval compute in s2b " sprop-parameter-sets="%string.
+Definition q_pli : bytes := Eval compute in s2b " profile-level-id=640016"%string.
+Definition q_pli_k : bytes := Eval compute in s2b "profile-level-id"%string.
+Definition q_pli_v : bytes := Eval compute in s2b "640016"%string.
+Definition q_pid : bytes := Eval compute in s2b "profile-id=1"%string.
+Definition q_pid_k : bytes := Eval compute in s2b "profile-id"%string.
+Definition q_sps : bytes := Eval compute in s2b "sprop-sps="%string.
+Definition q_pps : bytes := Eval compute in s2b "sprop-pps="%string.
+Definition q_vps : bytes := Eval compute in s2b "sprop-vps="%string.
+Definition q_aac_head : list bytes := Eval compute in
+  map s2b ["profile-level-id=1"; "mode=AAC-hbr"; "sizelength=13"; "indexlength=3"; "indexdeltalength=3"]%string.
+Definition q_config : bytes := Eval compute in s2b " config="%string.
+Definition q_aac_params : list (bytes * bytes) := Eval compute in
+  map (fun p => (s2b (fst p), s2b (snd p)))
+      [("profile-level-id", "1"); ("mode", "AAC-hbr"); ("sizelength", "13"); ("indexlength", "3");
+       ("indexdeltalength", "3")]%string.
+Definition q_streamid0 : bytes := Eval compute in s2b "streamid=0"%string.
+Definition q_streamid1 : bytes := Eval compute in s2b "streamid=1"%string.
+Definition q_one : bytes := [49].
+Definition q_two : bytes := [50].
+Definition q_48000 : bytes := Eval compute in s2b "48000"%string.
+
+(* the byte classes the encoded texts must avoid: ; , and ASCII white space *)
+Definition clean_char (c : N) : bool := negb ((c =? 59) || (c =? 44) || ascii_space c).
+Definition clean (s : bytes) : bool := forallb clean_char s.
+
+Lemma clean_nob c s : clean_char c = false -> clean s = true -> nob c s = true.
+Proof.
+  intros Hc Hs. unfold nob, clean in *. rewrite forallb_forall in *. intros x Hx.
+  specialize (Hs x Hx). apply negb_true_iff, N.eqb_neq. intro E. subst. congruence.
+Qed.
+
+Lemma clean_nospace s : clean s = true -> forallb (fun y => negb (ascii_space y)) s = true.
+Proof.
+  unfold clean. rewrite !forallb_forall. intros H x Hx. specialize (H x Hx).
+  unfold clean_char in H. apply negb_true_iff in H. apply orb_false_iff in H as [_ H]. now rewrite H.
+Qed.
+
+Lemma forallb_app_true {A} (f : A -> bool) a b :
+  forallb f a = true -> forallb f b = true -> forallb f (a ++ b) = true.
+Proof. intros Ha Hb. now rewrite forallb_app, Ha, Hb. Qed.
+
+Lemma nob_app_true c a b : nob c a = true -> nob c b = true -> nob c (a ++ b) = true.
+Proof. apply forallb_app_true. Qed.
+
+Lemma nob_cons_true c x s : (x =? c) = false -> nob c s = true -> nob c (x :: s) = true.
+Proof. intros H1 H2. cbn [nob forallb]. fold (nob c s). now rewrite H1, H2. Qed.
+
+Lemma nob_flip c s : nob c s = true -> forallb (fun y => negb (N.eqb c y)) s = true.
+Proof.
+  unfold nob. rewrite !forallb_forall. intros H x Hx. specialize (H x Hx). now rewrite N.eqb_sym.
+Qed.
+
+Lemma trim_space_nospace s : forallb (fun y => negb (ascii_space y)) s = true -> trim_space s = s.
+Proof.
+  intro H. unfold trim_space. destruct s as [|x s]; [reflexivity|].
+  cbn [forallb] in H. apply andb_prop in H as H'. destruct H' as [Hx _]. apply negb_true_iff in Hx.
+  rewrite drop_while_hd by exact Hx. now apply trim_right_f_keep.
+Qed.
+
+Lemma trim_space_skip x s : ascii_space x = true -> trim_space (x :: s) = trim_space s.
+Proof. intro H. unfold trim_space. now rewrite drop_while_skip. Qed.
+
+Section PackParse.
+  Variable b64_dec hex_dec : bytes -> bytes * bool.
+  Variable b64_enc hex_enc : bytes -> bytes.
+  (* trusted base: the laws of encoding/base64 (StdEncoding) and encoding/hex *)
+  Hypothesis b64_rt : forall x, b64_dec (b64_enc x) = (x, true).
+  Hypothesis hex_rt : forall x, hex_dec (hex_enc x) = (x, true).
+  Hypothesis b64_clean : forall x, clean (b64_enc x) = true.
+  Hypothesis hex_clean : forall x, clean (hex_enc x) = true.
+  Hypothesis hex_len : forall x, lenN (hex_enc x) = 2 * lenN x.
+
+  (* ---- a=fmtp of H264 ---- *)
+  Definition avc_params (S P : bytes) : list (bytes * bytes) :=
+    [(q_pm_k, q_one); (k_sprop, S ++ [44] ++ P); (q_pli_k, q_pli_v)].
+
+  Lemma fmtp_avc_line S P : clean S = true -> clean P = true ->
+    parse_a_fmtp (t_fmtp_avc_1 ++ S ++ [44] ++ P ++ t_fmtp_avc_2)
+    = Ok {| fp_format := 96; fp_params := avc_params S P |}.
+  Proof.
+    intros HS HP.
+    replace (t_fmtp_avc_1 ++ S ++ [44] ++ P ++ t_fmtp_avc_2)
+      with (k_fmtp ++ 58 :: ([57; 54] ++ 32 :: (q_pm ++ 59 :: ((q_sprop ++ S ++ [44] ++ P) ++ 59 :: q_pli))))
+      by (rewrite <- ?app_assoc; reflexivity).
+    rewrite (parse_a_fmtp_shape _ 96%Z) by reflexivity.
+    unfold trim_left_c. rewrite drop_while_app_hd by reflexivity.
+    assert (Hend : ends_ok (N.eqb 59) (q_pm ++ 59 :: (q_sprop ++ S ++ [44] ++ P) ++ 59 :: q_pli)).
+    { apply ends_ok_app, ends_ok_cons, ends_ok_app, ends_ok_cons. split; [reflexivity|discriminate]. }
+    unfold trim_right_c. rewrite (proj1 Hend).
+    assert (H59 : nob 59 (q_sprop ++ S ++ [44] ++ P) = true).
+    { repeat apply nob_app_true; try reflexivity; now apply clean_nob. }
+    rewrite split1_app by reflexivity. rewrite (split1_app 59 _ _ H59). rewrite split1_none by reflexivity.
+    rewrite (fmtp_params_cons q_pm q_pm_k q_one) by reflexivity.
+    rewrite (fmtp_params_cons (q_sprop ++ S ++ [44] ++ P) k_sprop (S ++ [44] ++ P)); [| |reflexivity].
+    - rewrite (fmtp_params_cons q_pli q_pli_k q_pli_v) by reflexivity. reflexivity.
+    - unfold trim_space.
+      change (q_sprop ++ S ++ [44] ++ P) with (32 :: (k_sprop ++ 61 :: (S ++ [44] ++ P))).
+      rewrite drop_while_skip by reflexivity.
+      change (k_sprop ++ 61 :: S ++ [44] ++ P) with (115 :: (tl k_sprop ++ 61 :: S ++ [44] ++ P)).
+      rewrite drop_while_hd by reflexivity.
+      apply trim_right_f_keep.
+      change (115 :: tl k_sprop ++ 61 :: S ++ [44] ++ P) with ((k_sprop ++ [61]) ++ S ++ [44] ++ P).
+      repeat apply forallb_app_true; try reflexivity; now apply clean_nospace.
+  Qed.
+
+  (* ---- a=fmtp of H265 ---- *)
+  Definition hevc_params (S P V : bytes) : list (bytes * bytes) :=
+    [(q_pid_k, q_one); (k_sprop_sps, S); (k_sprop_pps, P); (k_sprop_vps, V)].
+
+  Lemma fmtp_hevc_line S P V : clean S = true -> clean P = true -> clean V = true ->
+    parse_a_fmtp (t_fmtp_hevc_1 ++ S ++ t_fmtp_hevc_2 ++ P ++ t_fmtp_hevc_3 ++ V)
+    = Ok {| fp_format := 98; fp_params := hevc_params S P V |}.
+  Proof.
+    intros HS HP HV.
+    replace (t_fmtp_hevc_1 ++ S ++ t_fmtp_hevc_2 ++ P ++ t_fmtp_hevc_3 ++ V)
+      with (k_fmtp ++ 58 :: ([57; 56] ++ 32 :: (q_pid ++ 59 :: ((q_sps ++ S) ++ 59 :: ((q_pps ++ P) ++ 59 :: (q_vps ++ V))))))
+      by (rewrite <- ?app_assoc; reflexivity).
+    rewrite (parse_a_fmtp_shape _ 98%Z) by reflexivity.
+    unfold trim_left_c. rewrite drop_while_app_hd by reflexivity.
+    assert (Hend : ends_ok (N.eqb 59) (q_pid ++ 59 :: (q_sps ++ S) ++ 59 :: (q_pps ++ P) ++ 59 :: (q_vps ++ V))).
+    { apply ends_ok_app, ends_ok_cons, ends_ok_app, ends_ok_cons, ends_ok_app, ends_ok_cons.
+      change (q_vps ++ V) with (k_sprop_vps ++ 61 :: V). apply ends_ok_app, ends_ok_tail; [reflexivity|].
+      apply nob_flip. now apply clean_nob. }
+    unfold trim_right_c. rewrite (proj1 Hend).
+    assert (H1 : nob 59 (q_sps ++ S) = true) by (apply nob_app_true; [reflexivity|now apply clean_nob]).
+    assert (H2 : nob 59 (q_pps ++ P) = true) by (apply nob_app_true; [reflexivity|now apply clean_nob]).
+    assert (H3 : nob 59 (q_vps ++ V) = true) by (apply nob_app_true; [reflexivity|now apply clean_nob]).
+    rewrite split1_app by reflexivity. rewrite (split1_app 59 _ _ H1), (split1_app 59 _ _ H2), (split1_none 59 _ H3).
+    assert (Hts : forall q X, forallb (fun y => negb (ascii_space y)) q = true -> clean X = true -> trim_space (q ++ X) = q ++ X).
+    { intros q X Hq HX. apply trim_space_nospace, forallb_app_true; [exact Hq|now apply clean_nospace]. }
+    rewrite (fmtp_params_cons q_pid q_pid_k q_one) by reflexivity.
+    rewrite (fmtp_params_cons (q_sps ++ S) k_sprop_sps S) by (first [reflexivity | rewrite Hts by (reflexivity || assumption); reflexivity]).
+    rewrite (fmtp_params_cons (q_pps ++ P) k_sprop_pps P) by (first [reflexivity | rewrite Hts by (reflexivity || assumption); reflexivity]).
+    rewrite (fmtp_params_cons (q_vps ++ V) k_sprop_vps V) by (first [reflexivity | rewrite Hts by (reflexivity || assumption); reflexivity]).
+    reflexivity.
+  Qed.
+
+  (* ---- a=fmtp of AAC ---- *)
+  Definition aac_params (H : bytes) : list (bytes * bytes) := q_aac_params ++ [(k_config, H)].
+
+  Lemma fmtp_aac_line H : clean H = true ->
+    parse_a_fmtp (t_fmtp ++ fmt_d pt_aac ++ t_fmtp_aac ++ H)
+    = Ok {| fp_format := 97; fp_params := aac_params H |}.
+  Proof.
+    intros HH.
+    replace (t_fmtp ++ fmt_d pt_aac ++ t_fmtp_aac ++ H)
+      with (k_fmtp ++ 58 :: ([57; 55] ++ 32 :: (nth 0 q_aac_head [] ++ 59 :: (nth 1 q_aac_head [] ++ 59 :: (nth 2 q_aac_head [] ++ 59 ::
+              (nth 3 q_aac_head [] ++ 59 :: (nth 4 q_aac_head [] ++ 59 :: (q_config ++ H))))))))
+      by (rewrite <- ?app_assoc; reflexivity).
+    rewrite (parse_a_fmtp_shape _ 97%Z) by reflexivity.
+    unfold trim_left_c. rewrite drop_while_app_hd by reflexivity.
+    assert (Hend : ends_ok (N.eqb 59) (nth 0 q_aac_head [] ++ 59 :: (nth 1 q_aac_head [] ++ 59 :: (nth 2 q_aac_head [] ++ 59 ::
+              (nth 3 q_aac_head [] ++ 59 :: (nth 4 q_aac_head [] ++ 59 :: (q_config ++ H))))))).
+    { do 5 apply ends_ok_app, ends_ok_cons.
+      change (q_config ++ H) with (32 :: k_config ++ 61 :: H). apply ends_ok_cons, ends_ok_app, ends_ok_tail; [reflexivity|].
+      apply nob_flip. now apply clean_nob. }
+    unfold trim_right_c. rewrite (proj1 Hend).
+    assert (H6 : nob 59 (q_config ++ H) = true) by (apply nob_app_true; [reflexivity|now apply clean_nob]).
+    do 5 rewrite split1_app by reflexivity. rewrite (split1_none 59 _ H6).
+    rewrite (fmtp_params_cons (nth 0 q_aac_head []) (fst (nth 0 q_aac_params ([], []))) (snd (nth 0 q_aac_params ([], [])))) by reflexivity.
+    rewrite (fmtp_params_cons (nth 1 q_aac_head []) (fst (nth 1 q_aac_params ([], []))) (snd (nth 1 q_aac_params ([], [])))) by reflexivity.
+    rewrite (fmtp_params_cons (nth 2 q_aac_head []) (fst (nth 2 q_aac_params ([], []))) (snd (nth 2 q_aac_params ([], [])))) by reflexivity.
+    rewrite (fmtp_params_cons (nth 3 q_aac_head []) (fst (nth 3 q_aac_params ([], []))) (snd (nth 3 q_aac_params ([], [])))) by reflexivity.
+    rewrite (fmtp_params_cons (nth 4 q_aac_head []) (fst (nth 4 q_aac_params ([], []))) (snd (nth 4 q_aac_params ([], [])))) by reflexivity.
+    rewrite (fmtp_params_cons (q_config ++ H) k_config H); [reflexivity| |reflexivity].
+    change (q_config ++ H) with (32 :: (k_config ++ [61]) ++ H). rewrite trim_space_skip by reflexivity.
+    rewrite trim_space_nospace; [now rewrite <- app_assoc|].
+    apply forallb_app_true; [reflexivity|now apply clean_nospace].
+  Qed.
+End PackParse.
